@@ -131,7 +131,22 @@ func (c *Ctx) effects() map[*ssa.Function]*Effects {
 			for _, in := range b.Instrs {
 				switch x := in.(type) {
 				case *ssa.Store:
-					addW(writeKey(fn, x.Addr, ""), in)
+					if st, ok := x.Val.Type().Underlying().(*types.Struct); ok {
+						k := writeKey(fn, x.Addr, "")
+						if k != "local" && k != "?" {
+							g := map[string]bool{}
+							addStructKeys(g, k, st)
+							for kk := range g {
+								if !isStructKey(st, strings.TrimPrefix(kk, k+".")) {
+									addW(kk, in)
+								}
+							}
+						} else {
+							addW(k, in)
+						}
+					} else {
+						addW(writeKey(fn, x.Addr, ""), in)
+					}
 					if f := fieldOfAddr(x.Addr); f != nil {
 						e.fields[f] = true
 						markNested(e.fields, f.Type())
@@ -396,6 +411,14 @@ func (c *Ctx) mustWrite0(fn *ssa.Function, assume func(*ssa.If) int, stack map[*
 	if fn.Blocks == nil || stack[fn] {
 		return map[string]bool{}
 	}
+	if _, own := c.effects()[fn]; !own {
+		return map[string]bool{} // library code: no summary
+	}
+	if assume == nil {
+		if r, ok := c.mustMemo[fn]; ok {
+			return r
+		}
+	}
 	stack[fn] = true
 	defer delete(stack, fn)
 	fi := c.info(fn)
@@ -427,7 +450,7 @@ func (c *Ctx) mustWrite0(fn *ssa.Function, assume func(*ssa.If) int, stack map[*
 				if mc, ok := com.Value.(*ssa.MakeClosure); ok {
 					bindings = mc.Bindings
 				}
-				for k := range c.mustWrite0(callee, nil, stack) {
+				for k := range c.mustWrite0(callee, c.calleeAssume(fi, x, callee), stack) {
 					g[substKey(fn, k, com.Args, bindings)] = true
 				}
 			}
@@ -436,25 +459,11 @@ func (c *Ctx) mustWrite0(fn *ssa.Function, assume func(*ssa.If) int, stack map[*
 		delete(g, "?")
 		gen[b] = g
 	}
-	// loop bodies: stores in blocks that dominate a latch count at the header
-	for _, l := range fi.loops {
-		for b := range l.Blocks {
-			if b == l.Header {
-				continue
-			}
-			domAll := true
-			for _, la := range l.Latches {
-				if !(b == la || b.Dominates(la)) {
-					domAll = false
-				}
-			}
-			if domAll {
-				for k := range gen[b] {
-					gen[l.Header][k] = true
-				}
-			}
-		}
-	}
+	// loop bodies are treated as executed: what is must-written at every
+	// latch of a loop (computed by the same dataflow inside the body) is
+	// credited to the loop header. Iterate because loops nest.
+	solve := func() map[*ssa.BasicBlock]map[string]bool { return nil }
+	_ = solve
 	// forward must dataflow
 	pruned := func(p, s *ssa.BasicBlock) bool {
 		if assume == nil {
@@ -487,6 +496,43 @@ func (c *Ctx) mustWrite0(fn *ssa.Function, assume func(*ssa.If) int, stack map[*
 			o[k] = true
 		}
 		out[b] = o
+	}
+	for round := 0; round < 4; round++ {
+	if round > 0 {
+		grew := false
+		for _, l := range fi.loops {
+			var m map[string]bool
+			for _, la := range l.Latches {
+				if m == nil {
+					m = map[string]bool{}
+					for k := range out[la] {
+						m[k] = true
+					}
+				} else {
+					for k := range m {
+						if !out[la][k] {
+							delete(m, k)
+						}
+					}
+				}
+			}
+			for k := range m {
+				if !gen[l.Header][k] {
+					gen[l.Header][k] = true
+					grew = true
+				}
+			}
+		}
+		if !grew {
+			break
+		}
+		for _, b := range fn.Blocks {
+			o := map[string]bool{}
+			for k := range universe {
+				o[k] = true
+			}
+			out[b] = o
+		}
 	}
 	for changed := true; changed; {
 		changed = false
@@ -527,6 +573,7 @@ func (c *Ctx) mustWrite0(fn *ssa.Function, assume func(*ssa.If) int, stack map[*
 			}
 		}
 	}
+	}
 	// intersect over success returns
 	var res map[string]bool
 	for _, b := range fn.Blocks {
@@ -556,6 +603,12 @@ func (c *Ctx) mustWrite0(fn *ssa.Function, assume func(*ssa.If) int, stack map[*
 	}
 	if res == nil {
 		res = map[string]bool{}
+	}
+	if assume == nil && len(stack) == 1 {
+		if c.mustMemo == nil {
+			c.mustMemo = map[*ssa.Function]map[string]bool{}
+		}
+		c.mustMemo[fn] = res
 	}
 	return res
 }
@@ -690,4 +743,73 @@ func isNilCmp(cd Cond, v ssa.Value) int {
 		return +1
 	}
 	return -1
+}
+
+// isStructKey: does the dotted field path rel inside st denote a struct-typed field?
+func isStructKey(st *types.Struct, rel string) bool {
+	parts := strings.Split(rel, ".")
+	cur := st
+	for i, p := range parts {
+		found := false
+		for j := 0; j < cur.NumFields(); j++ {
+			if cur.Field(j).Name() == p {
+				found = true
+				s2, ok := cur.Field(j).Type().Underlying().(*types.Struct)
+				if i == len(parts)-1 {
+					return ok
+				}
+				if !ok {
+					return false
+				}
+				cur = s2
+				break
+			}
+		}
+		if !found {
+			return false
+		}
+	}
+	return false
+}
+
+// calleeAssume: when the caller proves an integer argument ≥ 1 at the call,
+// the callee's early exits on "param == 0" are pruned.
+func (c *Ctx) calleeAssume(fi *FuncInfo, call ssa.CallInstruction, callee *ssa.Function) func(*ssa.If) int {
+	nz := map[*ssa.Parameter]bool{}
+	args := call.Common().Args
+	for i, p := range callee.Params {
+		if i >= len(args) || !isIntType(p.Type()) {
+			continue
+		}
+		if fi.proveAt(linConst(1).sub(fi.lin(args[i])), call.Block(), nil) {
+			nz[p] = true
+		}
+	}
+	if len(nz) == 0 {
+		return nil
+	}
+	return func(iff *ssa.If) int {
+		cd := unNot(Cond{iff.Cond, true})
+		bo, ok := cd.V.(*ssa.BinOp)
+		if !ok || (bo.Op != token.EQL && bo.Op != token.NEQ) {
+			return 0
+		}
+		var p *ssa.Parameter
+		if pp, ok := bo.X.(*ssa.Parameter); ok && isConstZero(bo.Y) {
+			p = pp
+		} else if pp, ok := bo.Y.(*ssa.Parameter); ok && isConstZero(bo.X) {
+			p = pp
+		}
+		if p == nil || !nz[p] {
+			return 0
+		}
+		pol := -1 // param == 0 is false
+		if bo.Op == token.NEQ {
+			pol = +1
+		}
+		if !cd.True {
+			pol = -pol
+		}
+		return pol
+	}
 }
